@@ -258,6 +258,27 @@ def main():
         print('ANALYSIS-BROKEN property=%s: internal error in checker' % pid)
         return 2
 
+    # E-IDX over the functions this property's rules analysed: a table read through the wrong enumeration gives another
+    # entry's value to the behaviour the property is about
+    if broken is None:
+        try:
+            from rules.common import enum_index_confusions
+            prog_ = ctx.prog()
+            n_e = 0
+            for f_, n_, arr, dim, want, got in enum_index_confusions(prog_, ctx.functions_analysed):
+                n_e += 1
+                ctx.ob('%s.E.index-enum' % pid, '%s:%s' % (f_.name.rsplit('::', 1)[-1], arr.rsplit('::', 1)[-1]), False,
+                       '%s is indexed through %s everywhere else; here the index is a %s, which selects another entry'
+                       % (arr, want, got), site=f_.loc(n_))
+            if not n_e:
+                ctx.ob('%s.E.index-enum' % pid, 'analysed functions', True,
+                       'in the functions analysed every subscript of an engine table uses the enumeration that table dimension is '
+                       'indexed through everywhere else', site='engine/')
+        except AnalysisBroken as e:
+            print('ANALYSIS-BROKEN property=%s: %s' % (pid, e))
+            if not ctx.findings:
+                return 2
+
     thorough_info = None
     if tier == 'thorough' and broken is None:
         try:
